@@ -109,6 +109,7 @@ def locate(toks, path):
         want = [t.text for t in want]
         kind = want[0]
         cands = []
+        exact = []   # impl headers spelled exactly as requested win over headers that merely contain the requested tokens
         for (start, kw, end) in _top_level_items(toks, lo, hi):
             if toks[kw].text != kind:
                 continue
@@ -123,6 +124,8 @@ def locate(toks, path):
                         # `impl<T> Trait for X`: only accept if X side contains the names
                         pass
                     cands.append((start, kw, end))
+                    if header == want[1:]:
+                        exact.append((start, kw, end))
             else:
                 name_idx = kw + 1
                 if kind == 'macro_rules':
@@ -134,6 +137,8 @@ def locate(toks, path):
                         continue
                     cands.append((start, kw, end))
         last = si == len(segs) - 1
+        if len(cands) > 1 and len(exact) == 1:
+            cands = exact
         if len(cands) > 1:
             # several definitions under different #[cfg]s: keep those live in the production configuration (R2)
             live = []
